@@ -62,6 +62,19 @@ fn bases() -> Vec<(&'static str, Vec<Vec<&'static str>>)> {
             ],
         ),
         (
+            // data lines of different byte lengths: after cutting, lines with the same line number
+            // in different files have different lengths (odd/even, flash padding, EEPROM packing)
+            "data-lines",
+            vec![
+                vec![".db 1"],
+                vec![".db 1, 2, 3, 4"],
+                vec![".db \"abc\"", ".message \"mk8\""],
+                vec![".eseg", ".db 5, 6, 7", ".db 8", ".cseg"],
+                vec!["tail_l: .db 9, 10"],
+                vec![".dw tail_l"],
+            ],
+        ),
+        (
             "conditional-and-flags",
             vec![
                 vec![".define FLAG_A"],
@@ -422,7 +435,7 @@ pub fn run(tier: Tier) -> i32 {
     let coverage = cov(json!({
         "evaluations": evals.load(Ordering::Relaxed),
         "distinct_nontrivial": items.len(),
-        "rule": "4 base programs with cross-boundary dependencies (constants in both directions, a macro defined in one file and called in others, .device inside an include followed by a device-dependent lds, a complete conditional and .define flags, EEPROM data) x every way of cutting contiguous unit blocks into <=2 (thorough 3) include files (one include, nested, siblings) x every location kind per include edge (same directory, sub-directory in the path, caller-supplied directory, relative / absolute .includepath in the includer, .includepath in a previously included file, absolute path as written, nowhere) x .exit at the end of the innermost file; plus a subset run with the main file given relative to the current directory. distinct_nontrivial = distinct configurations (each is a real directory tree)",
+        "rule": "5 base programs with cross-boundary dependencies (constants in both directions, a macro defined in one file and called in others, .device inside an include followed by a device-dependent lds, a complete conditional and .define flags, EEPROM data) x every way of cutting contiguous unit blocks into <=2 (thorough 3) include files (one include, nested, siblings) x every location kind per include edge (same directory, sub-directory in the path, caller-supplied directory, relative / absolute .includepath in the includer, .includepath in a previously included file, absolute path as written, nowhere) x .exit at the end of the innermost file; plus a subset run with the main file given relative to the current directory. distinct_nontrivial = distinct configurations (each is a real directory tree)",
         "exhaustive": true,
         "cwd_relative_cases": cwd_cases,
         "location_kind_use": *loc_use.lock().unwrap(),
